@@ -51,6 +51,7 @@ type stream struct {
 	n         int
 	stats     map[string]int
 	samples   []string
+	oracle    []string
 }
 
 func (s *stream) add(req, real string) {
@@ -62,6 +63,11 @@ func (s *stream) add(req, real string) {
 	}
 }
 func (s *stream) stat(k string) { s.stats[k]++ }
+
+// a property violation observed directly on the real code (real-vs-real or real-vs-independent oracle)
+func (s *stream) violate(property, what, input, observed string) {
+	s.oracle = append(s.oracle, fmt.Sprintf(`{"property":%q,"what":%q,"input":%q,"observed":%q}`, property, what, input, observed))
+}
 
 var (
 	outDir string
@@ -101,6 +107,12 @@ func openStream(name string) (*stream, func()) {
 			fmt.Fprintf(f, "sample %s\n", x)
 		}
 		f.Close()
+		o, err := os.Create(filepath.Join(outDir, name+".oracle"))
+		must(err)
+		for _, x := range s.oracle {
+			fmt.Fprintln(o, x)
+		}
+		o.Close()
 	}
 }
 
